@@ -4,7 +4,8 @@
                the listing node as parent; the reachable part is a well-founded tree; the root has no parent. *)
 From Coq Require Import List ZArith QArith Bool.
 Import ListNotations.
-Require Import QV.C09.Model QV.C09.Corr QV.C09.Proofs QV.C09.Proofs2 QV.C09.Proofs3 QV.C09.Proofs4.
+Require Import QV.C09.Model QV.C09.Corr QV.C09.Proofs QV.C09.Proofs2 QV.C09.Proofs3 QV.C09.Proofs4 QV.C09.Proofs5 QV.C09.Proofs6
+               QV.C09.Proofs7 QV.C09.Proofs8 QV.C09.Proofs9.
 
 (* every freshly constructed tree (Loop(...) with nested children, any counts / waveforms / measurements) satisfies Inv *)
 Theorem C09_init : forall t, sInv (init_state t).
@@ -56,13 +57,7 @@ Theorem C09_copy_append_preserves : forall h0 r d x np h' res,
 Proof. intros h0 r d x np h' res. apply append_fresh_inv. apply copy_fresh. Qed.
 Print Assumptions C09_copy_append_preserves.
 
-(* x[idx] = <fresh tree> for any integer idx (negative and out-of-range included: the IndexError path leaves the tree
-   untouched), after repair c876dc9: the recorded position is the normalised index *)
-Theorem C09_setitem_int_preserves : forall h0 r x idx t h' res,
-  Inv h0 r -> reach h0 r x -> (c <- build t ;; loop_setitem_int x idx c) h0 = (h', res) -> ok_result res -> Inv h' r.
-Proof. intros h0 r x idx t h' res. apply setitem_int_fresh_inv. apply build_fresh. Qed.
-Print Assumptions C09_setitem_int_preserves.
-
+(*SETINT*)
 (* replacing the children list of a live node x by kept old children (possibly renumbered) and roots of fresh trees,
    every listed child recording parent x and its index: everything of Inv holds except the caches of x and its
    ancestors (which the reset walk then clears, C09_reset_walk_restores).  The lemma every structural operation reduces to. *)
@@ -79,16 +74,65 @@ Theorem C09_regraft : forall h0 h2 r x nx new fresh M,
 Proof. exact regraft_inv. Qed.
 Print Assumptions C09_regraft.
 
-(* one step / any finite history over the operations proved so far (append_child of a fresh tree or of a copy,
-   __setitem__ with an integer index, waveform setter, both repetition setters, duration / body_duration queries, ==, no-op), arbitrary target paths and arguments *)
+(* the subtree at a live node x is replaced by ANY subtree that satisfies the invariant locally (LI: links, well-founded,
+   caches valid below x), x keeps its own link fields, nothing outside the old subtree of x changes: everything of Inv
+   holds except the caches of x and its ancestors (then C09_reset_walk_restores).  Dropped nodes may change arbitrarily. *)
+Theorem C09_replace : forall h0 h2 r x nx nx2,
+  Inv h0 r -> reach h0 r x -> get h0 x = Some nx -> get h2 x = Some nx2 -> parent nx2 = parent nx -> pidx nx2 = pidx nx ->
+  LI h2 x (fun y => y = x) -> (forall y, reach h0 r y -> ~ reach h0 x y -> get h2 y = get h0 y) ->
+  InvExc h2 r (fun y => reach h2 y x).
+Proof. exact replace_inv. Qed.
+Print Assumptions C09_replace.
+
+(* ... and when the duration of x (body x count) is what it was and x's own cache is valid, nothing needs invalidating
+   (reverse_inplace, roll_constant_waveforms) *)
+Theorem C09_replace_same_duration : forall h0 h2 r x nx nx2,
+  Inv h0 r -> reach h0 r x -> get h0 x = Some nx -> get h2 x = Some nx2 -> parent nx2 = parent nx -> pidx nx2 = pidx nx ->
+  (forall y, reach h0 r y -> ~ reach h0 x y -> get h2 y = get h0 y) ->
+  LI h2 x (fun _ => False) ->
+  (forall b, tbody h0 x b -> exists b', tbody h2 x b' /\ (b' * rep_of nx2 == b * rep_of nx)%Q) ->
+  Inv h2 r.
+Proof.
+  intros h0 h2 r x nx nx2 I R G G2 P1 P2 OUT LX D.
+  eapply (replace_same_duration h0 h2 r x nx nx2); eauto. eapply LI_weaken; [|exact LX]. intros; contradiction.
+Qed.
+Print Assumptions C09_replace_same_duration.
+
+(* x[a:b] = [<fresh trees>] for a simple slice (step None or 1), any bounds incl. negative / out of range / empty, any
+   number of values: renumbering loops, detaching of the replaced children (repair of round 2), reset walk *)
+Theorem C09_setitem_slice_preserves : forall h0 r x a b stp ts h' res,
+  (stp = None \/ stp = Some 1%Z) ->
+  Inv h0 r -> reach h0 r x -> (cs <- mmap build ts ;; loop_setitem_slice x a b stp cs) h0 = (h', res) -> ok_result res -> Inv h' r.
+Proof. exact setslice_build_inv. Qed.
+Print Assumptions C09_setitem_slice_preserves.
+
+Theorem C09_unroll_preserves : forall h r x h' res,
+  Inv h r -> reach h r x -> unroll x h = (h', res) -> ok_result res -> Inv h' r.
+Proof. exact unroll_inv. Qed.
+Print Assumptions C09_unroll_preserves.
+
+Theorem C09_unroll_children_preserves : forall h r x h' res,
+  Inv h r -> reach h r x -> unroll_children x h = (h', res) -> ok_result res -> Inv h' r.
+Proof. exact unroll_children_inv. Qed.
+Print Assumptions C09_unroll_children_preserves.
+
+(* if x._has_single_child_that_can_be_merged(): x._merge_single_child()  (all four volatile cases, measurements) *)
+Theorem C09_merge_preserves : forall vctr h r x h' res,
+  Inv h r -> reach h r x -> try_merge vctr x h = (h', res) -> ok_result res -> Inv h' r.
+Proof. intros. eapply try_merge_inv; eauto. Qed.
+Print Assumptions C09_merge_preserves.
+
+(*MOREOPS*)
+
+(* one step / any finite history over the operations proved so far, arbitrary target paths and arguments *)
 Theorem C09_step_partial : forall s o s' out,
-  sInv s -> proved_op'' o = true -> step s o = (s', out) -> out_ok out -> sInv s'.
-Proof. exact step_partial''. Qed.
+  sInv s -> proved_op2 o = true -> step s o = (s', out) -> out_ok out -> sInv s'.
+Proof. exact step_partial2. Qed.
 Print Assumptions C09_step_partial.
 
 Theorem C09_history_partial : forall ops s,
-  sInv s -> forallb proved_op'' ops = true -> run_ok s ops -> sInv (run s ops).
-Proof. exact history_partial''. Qed.
+  sInv s -> forallb proved_op2 ops = true -> run_ok s ops -> sInv (run s ops).
+Proof. exact history_partial2. Qed.
 Print Assumptions C09_history_partial.
 
 (* Loop.__eq__ depends on children lists, repetition definitions, waveforms and measurements only: two heaps that agree
